@@ -194,6 +194,15 @@ fn prop(c: &Case, info: &mut CaseInfo) -> Verdict {
     for _ in 0..c.runs.clamp(1, 3) {
         // the fetch logs accumulate: a flagged host must not be contacted in any of the runs
         let run = collector.start();
+        // A trust anchor certificate named by a TAL on the same authority (module `ta`) is asked for
+        // first, as the engine does at the start of a run. TAL URIs are configuration, not RPKI data:
+        // whether that request is made is not judged (only invocations for module `repo` are), but it
+        // must not change how the CA's URIs on that authority are treated afterwards.
+        if need_rsync {
+            if let Ok(u) = rpki::repository::tal::TalUri::from_string(format!("rsync://{}/ta/ta.cer", c.authority)) {
+                let _ = run.load_ta(&u);
+            }
+        }
         r1 = run.repository(&ca).map(|r| r.map(|r| r.is_rrdp()));
         let r2 = run.repository(&sib).map(|r| r.map(|r| r.is_rrdp()));
         drop(run);
@@ -281,7 +290,7 @@ fn connect_matches(got: &str, want: &str) -> bool {
 }
 
 pub fn run(ctx: &Ctx, rep: &mut Report, replay: Option<&serde_json::Value>) {
-    rep.rule("1-3 validation runs on the same Collector (as a server performs them) per case; generated authorities (localhost; dotted IPv4; bare and bracketed IPv6; name/IPv4/IPv6/localhost with explicit port incl. default ports; clean names with digits, quad-like prefixes or containing 'localhost'; open forms: case variants, trailing dot, inet_aton-style numeric names, userinfo) placed in caRepository, rpkiNotify or both of a CA certificate issued under a clean trust anchor (encoded, decoded, validated, CaCert::chain) and handed to Run::repository next to a sibling CA on a clean host, x allow-dubious-hosts; oracle = independent classifier from the property text; flagged+option off => no rvrsync invocation and no CONNECT for that authority; clean or option on => fetch attempted; sibling always fetched; non-trivial = flagged host with the option off (sibling present in every case); distinct by serialised case");
+    rep.rule("1-3 validation runs on the same Collector (as a server performs them) per case, each asking first for a trust anchor certificate (rsync TAL URI in another module of the same authority; not judged itself) and then for a CA repository on the generated authority; generated authorities (localhost; dotted IPv4; bare and bracketed IPv6; name/IPv4/IPv6/localhost with explicit port incl. default ports; clean names with digits, quad-like prefixes or containing 'localhost'; open forms: case variants, trailing dot, inet_aton-style numeric names, userinfo) placed in caRepository, rpkiNotify or both of a CA certificate issued under a clean trust anchor (encoded, decoded, validated, CaCert::chain) and handed to Run::repository next to a sibling CA on a clean host, x allow-dubious-hosts; oracle = independent classifier from the property text; flagged+option off => no rvrsync invocation and no CONNECT for that authority; clean or option on => fetch attempted; sibling always fetched; non-trivial = flagged host with the option off (sibling present in every case); distinct by serialised case");
     rep.assume("every request routinator starts is visible: rsync via the fake rsync command's invocation log, https via the CONNECT log of the harness proxy (rrdp-proxies); authorities rpki's URI types reject ('[', ']', '@') cannot come out of a decoded certificate and are counted as unrepresentable");
     ctx.shrink_iters.store(200, std::sync::atomic::Ordering::Relaxed);
     if let Some(v) = replay {
